@@ -4,6 +4,15 @@ import random
 
 MOD = 2**63
 
+# set by the driver before any case is generated; "thorough" lets a seeded half
+# of the runs use larger worlds (more callers, longer programs, deeper documents)
+TIER = "quick"
+
+
+def big(rng):
+    """True for the runs of the thorough tier that use larger bounds."""
+    return TIER == "thorough" and rng.random() < 0.5
+
 
 def run_seed(verif_seed, i):
     return (int(verif_seed) * 1_000_003 + int(i)) % MOD
